@@ -17,21 +17,44 @@ Open Scope Z_scope.
 
 Section Seq.
   Variables (sf : bool) (ntext : Z -> pystr) (stext : Z -> Z -> pystr) (rlist : Z -> list nat) (rsymt : nat -> pystr).
-  Notation ring_pure := (ring_pure rsymt).
+  Notation ring_pureA := (RingDefs.ring_pure rsymt).
+  Notation ring_pure := (RingDefs.ring_pure rsymt false).
   Notation wtextR := (wtextR sf ntext stext rlist rsymt).
   Notation wbranchesR := (wbranchesR sf ntext stext rlist rsymt).
 
+  (** the table and the markers written do not depend on the flag after_pct (only the text does) *)
+  Lemma ring_pure_flag : forall ris a b mk,
+    fst (fst (ring_pureA a mk ris)) = fst (fst (ring_pureA b mk ris)) /\ snd (ring_pureA a mk ris) = snd (ring_pureA b mk ris).
+  Proof.
+    induction ris as [|ri r IH]; intros a b mk; [split; reflexivity|]. cbn [RingDefs.ring_pure].
+    destruct (mk_get ri mk) as [m|].
+    - destruct (IH (a || (10 <=? m)%nat) (b || (10 <=? m)%nat) (mk_del ri mk)) as [E1 E2].
+      destruct (ring_pureA (a || (10 <=? m)%nat) (mk_del ri mk) r) as [[x1 y1] z1].
+      destruct (ring_pureA (b || (10 <=? m)%nat) (mk_del ri mk) r) as [[x2 y2] z2]. cbn [fst snd] in *. now subst.
+    - set (m := get_ring_marker (map snd mk)).
+      destruct (IH (a || (10 <=? m)%nat) (b || (10 <=? m)%nat) (mk ++ [(ri, m)])) as [E1 E2].
+      destruct (ring_pureA (a || (10 <=? m)%nat) (mk ++ [(ri, m)]) r) as [[x1 y1] z1].
+      destruct (ring_pureA (b || (10 <=? m)%nat) (mk ++ [(ri, m)]) r) as [[x2 y2] z2]. cbn [fst snd] in *. now subst.
+  Qed.
+
   Definition pmarks (mk : marks) (ris : list nat) : marks := fst (fst (ring_pure mk ris)).
+  Lemma pmarks_cons mk ri r :
+    pmarks mk (ri :: r) = match mk_get ri mk with
+                          | Some m => pmarks (mk_del ri mk) r
+                          | None => pmarks (mk ++ [(ri, get_ring_marker (map snd mk))]) r
+                          end.
+  Proof.
+    unfold pmarks. cbn [RingDefs.ring_pure]. destruct (mk_get ri mk) as [m|].
+    - rewrite <- (proj1 (ring_pure_flag r (false || (10 <=? m)%nat) false (mk_del ri mk))).
+      destruct (ring_pureA (false || (10 <=? m)%nat) (mk_del ri mk) r) as [[x y] z]. reflexivity.
+    - set (m := get_ring_marker (map snd mk)).
+      rewrite <- (proj1 (ring_pure_flag r (false || (10 <=? m)%nat) false (mk ++ [(ri, m)]))).
+      destruct (ring_pureA (false || (10 <=? m)%nat) (mk ++ [(ri, m)]) r) as [[x y] z]. reflexivity.
+  Qed.
   Lemma pmarks_app : forall a mk b, pmarks mk (a ++ b) = pmarks (pmarks mk a) b.
   Proof.
-    induction a as [|ri a IH]; intros mk b; [reflexivity|]. unfold pmarks in *. cbn [app RingDefs.ring_pure].
-    destruct (mk_get ri mk) as [m|].
-    - specialize (IH (mk_del ri mk) b).
-      destruct (ring_pure (mk_del ri mk) (a ++ b)) as [[x1 y1] z1]. destruct (ring_pure (mk_del ri mk) a) as [[x2 y2] z2].
-      cbn [fst] in *. exact IH.
-    - specialize (IH (mk ++ [(ri, get_ring_marker (map snd mk))]) b).
-      destruct (ring_pure (mk ++ [(ri, get_ring_marker (map snd mk))]) (a ++ b)) as [[x1 y1] z1].
-      destruct (ring_pure (mk ++ [(ri, get_ring_marker (map snd mk))]) a) as [[x2 y2] z2]. cbn [fst] in *. exact IH.
+    induction a as [|ri a IH]; intros mk b; [reflexivity|]. change ((ri :: a) ++ b) with (ri :: (a ++ b)).
+    rewrite !pmarks_cons. destruct (mk_get ri mk) as [m|]; apply IH.
   Qed.
 
   (** the ring indices in the order the traversal meets them *)
